@@ -254,11 +254,14 @@ def narrowing_len_sweep(ck, c, scope, name_pat, rule="CMP"):
     return n
 
 
+# function -> (kind, reason).  kind "zero": a test against the literal 0 may refuse on equality (the value must be non-zero),
+# every other equality test of the function is judged as usual; kind "inverted": the function is a predicate that answers
+# "a mismatch was found" (closure of `any`), so its tests must answer true on DIFFERENCE, i.e. "refuse" (answer false) on equality
 EQ_POLARITY_EXCEPTIONS = {
     "concordium_base::id::identity_provider::validate_request_common":
-        "`number_of_ars == 0` is itself the refusal (a request must name at least one anonymity revoker)",
+        ("zero", "`number_of_ars == 0` is itself the refusal (a request must name at least one anonymity revoker)"),
     "concordium_base::id::identity_provider::validate_request_common::{closure#0}":
-        "closure of `any(|(k1, k2)| k1 != k2)`: true means a mismatch was found, the caller refuses on true",
+        ("inverted", "closure of `any(|(k1, k2)| k1 != k2)`: true means a mismatch was found, the caller refuses on true"),
 }
 
 
@@ -281,8 +284,13 @@ def eq_polarity_sweep(ck, c, scope, name_pat, rule="CMP", exceptions=None):
                     continue
                 n += 1
                 k += 1
-                if rel == "Eq" and p in exceptions:
-                    ck.ob(rule, p, "equality-test-refuses-on-difference#%d" % k, True, "documented exception: " + exceptions[p], f.loc(cx["bb"]), nontrivial=False)
+                kind, why = exceptions.get(p, (None, None))
+                if kind == "zero" and rel == "Eq" and any(k0 is not None and const_int(k0) == 0 for k0 in (op_const(cx["a"]), op_const(cx["b"]))):
+                    ck.ob(rule, p, "equality-test-refuses-on-difference#%d" % k, True, "documented exception: " + why, f.loc(cx["bb"]), nontrivial=False)
+                    continue
+                if kind == "inverted":
+                    ck.ob(rule, p, "mismatch-predicate-true-on-difference#%d" % k, rel == "Eq",
+                          "documented: " + why if rel == "Eq" else "the mismatch predicate answers true when the compared values are EQUAL (%s)" % why, f.loc(cx["bb"]))
                     continue
                 ck.ob(rule, p, "equality-test-refuses-on-difference#%d" % k, rel == "Ne",
                       "refuses when the compared values differ" if rel == "Ne" else
